@@ -234,7 +234,7 @@ def apply_real(R, op, rng, hook=None):
     return o, code
 
 
-UNMODELLED = ["bin_average", "interpolate", "convolve", "smooth", "numpy_ufunc", "numpy_func", "concatenate", "split_concat", "to_tsgroup_to_tsd",
+UNMODELLED = ["make_group", "make_group", "bin_average", "interpolate", "convolve", "smooth", "numpy_ufunc", "numpy_func", "concatenate", "split_concat", "to_tsgroup_to_tsd",
               "tsgroup_restrict", "tsgroup_getby", "merge_group", "shift", "jitter", "resample", "shuffle", "perievent", "slice_index", "mask_index",
               "tsdframe_cols", "find_support", "ep_split", "in_interval", "trial_count", "frame_bin_average"]
 
@@ -280,19 +280,31 @@ def apply_unmodelled(R, name, rng):
         lab = nap.Tsd(np.asarray(xd.t), (np.arange(len(xd)) % 3).astype(float), time_support=xd.time_support)
         g = lab.to_tsgroup()
         return [g, g.to_tsd()]
-    if name in ("tsgroup_restrict", "tsgroup_getby", "merge_group", "trial_count"):
+    if name == "make_group":
         y = rng.choice(series)
         sup = x.time_support.union(y.time_support)
-        g = nap.TsGroup({3: nap.Ts(np.asarray(x.t)), 1: nap.Ts(np.asarray(y.t)), 7: nap.Ts(np.asarray(x.t)[::2])}, time_support=sup)
+        keys = rng.sample([0, 1, 3, 4, 7, 9], 3)
+        g = nap.TsGroup({keys[0]: nap.Ts(np.asarray(x.t)), keys[1]: nap.Ts(np.asarray(y.t)), keys[2]: nap.Ts(np.asarray(x.t)[::2])}, time_support=sup,
+                        metadata={"lab": [int(k) * 10 for k in sorted(keys)]})
+        return [g]
+    if name in ("tsgroup_restrict", "tsgroup_getby", "merge_group", "trial_count"):
+        groups = [o for o in R.objs + R.extra if isinstance(o, nap.TsGroup) and len(o) >= 2]
+        if not groups:
+            return []
+        g = rng.choice(groups)   # a LIVE group: snapshots taken around the call cover it
         if name == "tsgroup_restrict":
-            return [g, g.restrict(ep), g[[1, 7]]]
+            return [g.restrict(ep), g[list(g.keys())[:2]]]
         if name == "tsgroup_getby":
             return [g.getby_threshold("rate", float(np.median(g.rate)), ">="), g[g.rate > 0]]
         if name == "trial_count":
             g.trial_count(ep, b)
             return [g.count(b, ep)]
-        g2 = nap.TsGroup({4: nap.Ts(np.asarray(y.t))}, time_support=sup)
-        return [nap.TsGroup.merge_group(g, g2)]
+        others = [h for h in groups if h is not g and not (set(h.keys()) & set(g.keys())) and np.array_equal(h.time_support.values, g.time_support.values)]
+        outs = [nap.TsGroup.merge_group(g, g, reset_index=True), nap.TsGroup.merge_group(g, g, reset_index=True, ignore_metadata=True)]
+        if others:
+            h = rng.choice(others)
+            outs += [nap.TsGroup.merge_group(g, h), nap.TsGroup.merge_group(h, g, reset_index=True, ignore_metadata=True)]
+        return outs
     if name in ("shift", "jitter", "resample", "shuffle"):
         one = nap.IntervalSet(x.time_support.start[0], x.time_support.end[-1])
         ts1 = nap.Ts(np.asarray(x.t), time_support=one)
